@@ -220,6 +220,19 @@ Proof.
     [intros s x [-> | ->]; cbn [fst snd]; ring | exact HT] end.
 Qed.
 
+(** ** 5b. energy-momentum conservation inside the wall: the kinetic term sum_i phi_i'^2 of
+    temperatureProfileEqLHS only sees the squares (the potential and its T-derivative at
+    the field point are external and transformed consistently) *)
+Lemma temperatureLHS_invariant_full T dP Tm veff dVdT s1 s2 : wf_relab (length dP) T ->
+  temperatureLHS (relabel_vec T dP) Tm veff dVdT s1 s2 = temperatureLHS dP Tm veff dVdT s1 s2.
+Proof.
+  intros HT. unfold temperatureLHS, relabel_vec.
+  match goal with |- context [sumR (map ?g (map _ T))] =>
+    pose proof (relabel_gen_invariant 0 (fun s x => s * x) g T dP
+                  ltac:(intros s x [-> | ->]; ring) HT) as P end.
+  cbv beta in P. rewrite (sumR_perm _ _ P). reflexivity.
+Qed.
+
 (** ** 6. what the minimiser receives *)
 Lemma x0_layout n widths offsets : length widths = n -> length offsets = n -> (1 <= n)%nat ->
   length (minimize_x0 widths offsets) = (2 * n - 1)%nat /\
@@ -383,6 +396,15 @@ Theorem dVdz_invariant :
   dVdz_dPhidz_component = 1%nat /\ dVdz_fields_component = 0%nat.
 Proof. split; [exact dVdz_invariant_full|split; reflexivity]. Qed.
 Print Assumptions dVdz_invariant.
+
+Theorem temperatureLHS_invariant : forall T dP Tm veff dVdT s1 s2, wf_relab (length dP) T ->
+  temperatureLHS (relabel_vec T dP) Tm veff dVdT s1 s2 = temperatureLHS dP Tm veff dVdT s1 s2.
+Proof. exact temperatureLHS_invariant_full. Qed.
+Print Assumptions temperatureLHS_invariant.
+(** non-vacuity: the kinetic term is really there (two fields, one of them reflected) *)
+Example temperatureLHS_sees_gradient :
+  temperatureLHS [1; -1] 1 0 0 0 0 - temperatureLHS [0; 0] 1 0 0 0 0 = 1.
+Proof. unfold temperatureLHS. cbn [map sumR]. field. Qed.
 
 (** every component of the minimiser's argument gets the bounds of its own kind: widths
     the thickness bounds, the offset of EVERY non-pinned field the offset bounds; with the
